@@ -137,6 +137,10 @@ def classify(inv, o):
         return "%s:revoked-accepted%s" % (where, extra)
     if not any(x["state"] == "valid" and x["key"] == c["key"] for x in own):
         return "%s:forged-copied-cn-serial-other-key-accepted%s" % (where, extra)
+    usable = [x for x in own if x["state"] == "valid" and x["key"] == c["key"]
+              and x["window"] == "ok" and x["usage"] in ("client", "both", "none")]
+    if not usable and c["der"] != "onchain":
+        return "%s:remade-certificate-accepted-for-published-one-not-currently-valid%s" % (where, extra)
     if c["window"] != "ok":
         return "%s:outside-validity-window-accepted (%s)%s" % (where, c["window"], extra)
     if c["usage"] not in ("client", "both", "none"):
@@ -270,10 +274,10 @@ ASSUMPTIONS = [
     "handler (signature of the publishing account) is not exercised: Publish is executed with signer = owner",
     "the provider back end is a recorder; ids are observed at the provider.Client boundary",
     "time is sampled deep inside and at the edges (2 s behind, 2 min ahead) of each validity class, not at every instant",
-    "weak reading (DESIGN 5.1): only accepted/served outcomes can violate; 'currently valid' is judged on the "
-    "on-chain OR the presented certificate at the moment key possession is proven (full handshake); any on-chain "
-    "serial of the account with the presented key counts; a malformed id in the URL only has to stay inside the "
-    "authenticated account",
+    "reading: only accepted/served outcomes can violate; 'currently valid' is judged on the PUBLISHED certificate "
+    "(state valid, inside its window, usable for client auth) at the moment key possession is proven (full handshake); "
+    "byte identity of the presented certificate with the published one is not demanded; any on-chain serial of the "
+    "account with the presented key counts; a malformed id in the URL only has to stay inside the authenticated account",
 ]
 
 
